@@ -34,7 +34,9 @@ type trace struct {
 const stepLimit = 4000
 
 func execute(kind string, e *Expr, rng *rand.Rand) trace {
-	o := observe(kind, e, stepLimit)
+	// element type int; the source slices are windows with spare capacity while draining and are laid out differently
+	// from one ForEach run to the next (see env.mode)
+	o := observeT(intCodec(), layoutSpare, kind, e, stepLimit)
 	t := trace{Kind: kind, Expr: e, Depth: depthOf(e), Cc: o.Cc, Steps: o.Steps, Fe: []forEachObs{}, SrcOK: o.SrcOK, Post: o.Post, Repoll: o.Repoll,
 		Panic: o.Panic, Truncated: o.Truncated, PostPanic: o.PostPanic}
 	if o.Panic != "" || o.Truncated {
@@ -50,7 +52,7 @@ func execute(kind string, e *Expr, rng *rand.Rand) trace {
 		if !ks[k] {
 			continue
 		}
-		f := forEach(kind, e, k, n+2)
+		f := forEachT(intCodec(), (k+1)%4, kind, e, k, n+2)
 		if f.Panic != "" {
 			t.Panic = "ForEach: " + f.Panic
 		}
